@@ -56,6 +56,15 @@ def r_updateorder(idx, rep, rule="R-UPDATEORDER"):
         and [u(a) for a in ups[0].args] == [posevar] and u(ups[0].func.value) == u(abs_[0].func.value)
     rep.check(ok, rule, fk + "|update_pose before aabb()", f.where,
               "each collider must get update_pose(<new pose>) BEFORE its aabb() is inserted (otherwise the tree holds the boxes of the previous configuration)")
+    # ... on EVERY iteration: update_pose and the insertion are plain statements of the loop body (a 'did it move?' guard around
+    # update_pose leaves derived collider state - box vertices, mesh support - at the old pose when the pose array was edited in place)
+    def top_level(call):
+        return any(isinstance(st, ast.Expr) and st.value is call or (isinstance(st, (ast.Expr, ast.Assign)) and any(n is call for n in ast.walk(st))) for st in lp.body)
+    if len(ups) == 1 and len(ins) == 1:
+        rep.check(top_level(ups[0]) and top_level(ins[0]) and not any(isinstance(st, (ast.Continue, ast.Break)) for st in iter_stmts(lp.body)), rule,
+                  fk + "|every collider is updated and re-inserted unconditionally", f.where,
+                  "update_pose / insert_aabb are executed only under a condition (or the loop skips colliders): a collider whose pose test says 'unchanged' keeps "
+                  "derived state of the previous pose (poses are stored by reference, an in-place edit compares equal to itself)")
     if len(ins) == 1:
         a = ins[0].args
         coll = u(ups[0].func.value) if ups else None
